@@ -150,6 +150,10 @@ def run(repo, rep, tier):
     au = repo.func('ssh_audit', 'audit')
     rep.saw(au)
 
+    # ---- fool clause: a malformed (truncated) algorithm message is not taken for a complete one (rule shared with C02)
+    from props import _truncation
+    _truncation.check_truncation(repo, rep, 'fool')
+
     def skip(f):
         fid = func_id(f)
         if tier == 'thorough':
@@ -172,7 +176,7 @@ def run(repo, rep, tier):
     reach = cg.reachable([au])
     nsites = sum(len(partial_sites(f)) for f in reach if not skip(f))
     rep.extra['partial_operation_sites_on_audit_path'] = nsites
-    rep.floor('escape', 'partial-operation sites classified on the audit path', nsites, 25)
+    rep.floor('escape', 'partial-operation sites classified on the audit path', nsites, 20)
     esc = ea.of(au)
     seen = set()
     for s, chain in sorted(esc, key=lambda x: (func_id(x[0].func), x[0].node.lineno)):
@@ -289,9 +293,6 @@ def run(repo, rep, tier):
     rep.extra['loop_classes'] = {k: len(v) for k, v in classes.items()}
     rep.samples.append({'rule': 'loops', 'classes': {k: v[:4] for k, v in classes.items()}})
     rep.floor('loops', 'loops classified in the network modules', nloops, 20)
-    # ---- fool clause: a malformed (truncated) algorithm message is not taken for a complete one (rule shared with C02)
-    from props import _truncation
-    _truncation.check_truncation(repo, rep, 'fool')
     # ---- fool clause: packet framing (computed above, before the escape analysis that uses it)
     _framing.report(rep, framing, 'framing')
     rep.note('observation: SSH_Socket.ensure_read loops until a peer-chosen byte count (up to 2^32-1) has arrived; each iteration consumes at least one byte or ends with a timeout/close, so it is bounded by size x timeout, not by a byte cap')
